@@ -163,8 +163,8 @@ class _ParseTreeProcessor(parsimonious.NodeVisitor):
 
     def visit_line(self, node: _Node, children: _Children) -> None:
         _ = children
-        if len(node.text) == 0:
-            # Line is empty, flush comment
+        if len(node.text.strip()) == 0:
+            # Line is empty (possibly except for blanks), flush comment
             self._flush_comment()
 
     def visit_end_of_line(self, _n: _Node, _c: _Children) -> None:
